@@ -675,8 +675,8 @@ package command
 //@   entry row open: [call os.Open(o.ipFile) as (f, e)] when ret1 == e && isptr(ret0, os.File) && asptr(ret0, os.File) == f -> exit
 //@ func (*genericScanCmdOpts).newIPPortGenerator$3
 //@   props C01 C13
-//@   observe os.Open, io.NopCloser
-//@   entry row stdin: [call io.NopCloser(bind_r) as (c)] when o.ipFile == "-" && isptr(r, os.File) && asptr(r, os.File) == os.Stdin && ret0 == c && ret1 == nil -> exit
+//@   observe os.Open, openStdin
+//@   entry row stdin: [call openStdin() as (c, e)] when o.ipFile == "-" && ret0 == c && ret1 == e -> exit
 //@   entry row open:  [call os.Open(o.ipFile) as (f, e)] when o.ipFile != "-" && ret1 == e && isptr(ret0, os.File) && asptr(ret0, os.File) == f -> exit
 //@ func (*ipPortScanCmdOpts).newIPPortGenerator$2
 //@   props C01 C13
@@ -684,8 +684,8 @@ package command
 //@   entry row open: [call os.Open(o.ipFile) as (f, e)] when ret1 == e && isptr(ret0, os.File) && asptr(ret0, os.File) == f -> exit
 //@ func (*ipPortScanCmdOpts).newIPPortGenerator$3
 //@   props C01 C13
-//@   observe os.Open, io.NopCloser
-//@   entry row stdin: [call io.NopCloser(bind_r) as (c)] when o.ipFile == "-" && isptr(r, os.File) && asptr(r, os.File) == os.Stdin && ret0 == c && ret1 == nil -> exit
+//@   observe os.Open, openStdin
+//@   entry row stdin: [call openStdin() as (c, e)] when o.ipFile == "-" && ret0 == c && ret1 == e -> exit
 //@   entry row open:  [call os.Open(o.ipFile) as (f, e)] when o.ipFile != "-" && ret1 == e && isptr(ret0, os.File) && asptr(ret0, os.File) == f -> exit
 
 // loggers: flush option first; the JSON option iff --json; writer and name are the arguments
@@ -837,3 +837,16 @@ package command
 //@   ensures ece: mapin(tcpPacketFlagOptions, "ece") && closureof(mapget(tcpPacketFlagOptions, "ece"), "WithECE$1")
 //@   ensures cwr: mapin(tcpPacketFlagOptions, "cwr") && closureof(mapget(tcpPacketFlagOptions, "cwr"), "WithCWR$1")
 //@   ensures ns:  mapin(tcpPacketFlagOptions, "ns") && closureof(mapget(tcpPacketFlagOptions, "ns"), "WithNS$1")
+
+// a list on standard input is read completely, once, at the first open; every open (one per port) gets a fresh
+// reader over those same bytes; a read error is reported by every open (F02)
+//@ func newStdinOpener$1
+//@   props C01 C13
+//@   observe (*sync.Once).Do, bytes.NewReader, io.NopCloser
+//@   entry row failed: [call Do(_, bind_f)] when closureof(f, "newStdinOpener$1$1") && err != nil && ret0 == nil && ret1 == err -> exit
+//@   entry row reader: [call Do(_, bind_f) ; call bytes.NewReader(data) as (r) ; call io.NopCloser(bind_r2) as (c)]
+//@                        when closureof(f, "newStdinOpener$1$1") && err == nil && isptr(r2, bytes.Reader) && asptr(r2, bytes.Reader) == r && ret0 == c && ret1 == nil -> exit
+//@ func newStdinOpener$1$1
+//@   props C01 C13
+//@   observe io.ReadAll
+//@   entry row read: [call io.ReadAll(bind_in) as (d, e)] when isptr(in, os.File) && asptr(in, os.File) == os.Stdin && data == d && err == e -> exit
